@@ -107,9 +107,12 @@ def main():
     if rc != 0:
         print("apply to /repo failed", out); return 2
     t0 = time.time()
+    # the check runs from a copy of the COMMITTED /verif (so that edits in progress in the working tree cannot break it)
+    snap = "/tmp/verif_snap_%d" % os.getpid()
+    sh("rm -rf %s && mkdir -p %s && git -C %s archive HEAD | tar -x -C %s" % (snap, snap, VERIF, snap))
     try:
         e = dict(ENV, VERIF_BUDGET_S=budget)
-        r = subprocess.run(["./check", prop, "quick"], cwd=VERIF, env=e, stdout=subprocess.PIPE, stderr=subprocess.STDOUT, text=True, timeout=3600)
+        r = subprocess.run(["./check", prop, "quick"], cwd=snap, env=e, stdout=subprocess.PIPE, stderr=subprocess.STDOUT, text=True, timeout=3600)
         res["check_exit"] = r.returncode
         lines = [l for l in r.stdout.splitlines() if l.startswith("VIOLATION") or l.startswith("  rule=") or l.startswith("check:") or l.startswith("KNOWN")]
         res["check_output"] = [l[:300] for l in lines[:12]]
@@ -120,16 +123,17 @@ def main():
     finally:
         sh(["git", "-C", "/repo", "checkout", "--", "."])
         os.remove(curpatch)
-        # evidence file was rewritten by a run against a patched tree: restore the committed one
-        sh(["git", "-C", VERIF, "checkout", "--", "evidence/%s.json" % prop])
-        for f in os.listdir(os.path.join(VERIF, "replays")):
-            p = os.path.join(VERIF, "replays", f)
+        if res.get("check_exit") == 2:
+            res["check_tail"] = r.stdout[-1500:]
+        for f in (os.listdir(os.path.join(snap, "replays")) if os.path.isdir(os.path.join(snap, "replays")) else []):
+            p = os.path.join(snap, "replays", f)
             if os.path.isfile(p) and f.startswith(prop + "-") and os.path.getmtime(p) >= t0:
                 if keep:
                     os.makedirs(os.path.join(VERIF, "seeded", keep), exist_ok=True)
                     shutil.move(p, os.path.join(VERIF, "seeded", keep, "replay-" + f))
                 else:
                     os.remove(p)
+    shutil.rmtree(snap, ignore_errors=True)
     if keep:
         kd = os.path.join(VERIF, "seeded", keep)
         os.makedirs(kd, exist_ok=True)
